@@ -1,2 +1,6 @@
 pub mod c01;
+pub mod c02;
+pub mod c03;
+pub mod c05;
+pub mod c10;
 pub mod common;
